@@ -5,7 +5,7 @@ EXTENDS ClockCancel, Json
 VARIABLE hist
 GInit == Init /\ hist = <<>>
 GNext == /\ Next
-         /\ hist' = Append(hist, IF act'[1] = "Drop" THEN [act |-> "Drop", c |-> act'[2]] ELSE [act |-> "Callback"])
+         /\ hist' = Append(hist, IF act'[1] = "Drop" THEN [act |-> "Drop", c |-> act'[2]] ELSE [act |-> "Callback", heard |-> ev'.heard, st |-> ev'.st])
 GSpec == GInit /\ [][GNext]_<<vars, hist>>
 GView == <<w, marked, queued, live, cb, hist>>
 Dump == cb = MaxCb => PrintT(<<"BEHAVIOUR", ToJson(<<[n |-> N, w |-> w]>> \o hist)>>)
